@@ -591,13 +591,27 @@ def run_case(ctx, k, rng, rec, exprs, metas, tmpdir, combo):
                       dict(names=names, got=list(result.parameters.keys()), **info))
     with warnings.catch_warnings():
         warnings.simplefilter("ignore")
+        # the derived attributes are read in both orders (they are computed on first access and kept): the guess's hologram
+        # first on every other case
+        first = "guess_hologram" if ctx.explored % 2 else "hologram"
+        ctx.count("result:read-first:" + first)
+        if first == "guess_hologram":
+            gholo = np.asarray(result.guess_hologram.values, float).flatten()
         holo = np.asarray(result.hologram.values, float).flatten()
+        gholo = np.asarray(result.guess_hologram.values, float).flatten()
+        holo_again = np.asarray(result.hologram.values, float).flatten()
         ref = np.asarray(model.forward(dict(result.parameters), data).values, float).flatten()
+        gref = np.asarray(model.forward(dict(model.initial_guess), data).values, float).flatten()
         lnp = float(result.max_lnprob)
         lnp_ref = float(model.lnposterior(dict(result.parameters), result.data))
-    if holo.shape != ref.shape or not np.allclose(holo, ref, rtol=1e-9, atol=1e-12):
-        ctx.violation("explore:result-hologram", "FitResult.hologram is not the forward model at the reported parameters",
-                      dict(maxdiff=float(np.max(np.abs(holo - ref))) if holo.shape == ref.shape else "shape", **info))
+    if holo.shape != ref.shape or not np.allclose(holo, ref, rtol=1e-9, atol=1e-12) or not np.array_equal(holo, holo_again):
+        ctx.violation("explore:result-hologram", "FitResult.hologram is not the forward model at the reported parameters "
+                      "(attribute read first: %s)" % first,
+                      dict(maxdiff=float(np.max(np.abs(holo - ref))) if holo.shape == ref.shape else "shape", read_first=first, **info))
+    if gholo.shape != gref.shape or not np.allclose(gholo, gref, rtol=1e-9, atol=1e-12):
+        ctx.violation("explore:result-guess-hologram", "FitResult.guess_hologram is not the forward model at the model's initial "
+                      "guess (attribute read first: %s)" % first,
+                      dict(maxdiff=float(np.max(np.abs(gholo - gref))) if gholo.shape == gref.shape else "shape", read_first=first, **info))
     if not (lnp == lnp_ref):
         ctx.violation("explore:result-lnprob", "FitResult.max_lnprob is not lnposterior at the reported parameters",
                       dict(max_lnprob=lnp, lnposterior=lnp_ref, **info))
